@@ -188,6 +188,8 @@ def derived_record(c, rng=None, sample=40, fontIndex=0):
     if gt is None:
         return out
     glyphs, info = gt
+    # WOFF2 transformed glyf: the loca a decoder reconstructs uses the stream's own indexFormat (WOFF2 5.1 / 5.3)
+    out["w2IndexFormat"] = info.get("indexFormat", -1)
     if "loca" in info:
         loca = info["loca"]
         out["loca"] = {"n": len(loca), "glyfLen": len(t[b"glyf"]), "monotone": all(a <= b for a, b in zip(loca, loca[1:])),
